@@ -418,7 +418,7 @@ func runC17(r *Run) {
 	mutators := 0
 	plan := ""
 	for i := 0; i < nTasks; i++ {
-		n := 3 + t.Intn(10, "ops")
+		n := 3 + t.Intn(scale(10, 20), "ops")
 		var idx, arg []int
 		mut := false
 		for k := 0; k < n; k++ {
